@@ -48,5 +48,5 @@ def nontrivial(ctx, res):
 
 def run_case(case):
     m = SweepMon()
-    ctx = drive(case, [m], step_limit=300000)
+    ctx = drive(case, [m], step_limit=300000, own=PROP)
     return result_of(ctx, [m], prefix=PROP, nontrivial=nontrivial)
